@@ -36,6 +36,7 @@ V(i) == CASE i = 1 -> [t |-> "int", v |-> 1]
 NULL == [t |-> "NULL", v |-> 0]
 MARK == [t |-> "mark", v |-> 0]
 NameCode(n) == CASE n = "x" -> 101 [] n = "y" -> 102 [] n = "k" -> 103 [] n = "z" -> 104
+                  [] n = "func" -> 105 [] n = "ignored" -> 106 [] n = "self" -> 107     \* names klepto uses for its own parameters
                   [] n = "x/" -> 201 [] n = "y/" -> 202 [] OTHER -> 109
 Shadow(n) == IF n = "x" THEN "x/" ELSE IF n = "y" THEN "y/" ELSE n      \* an extra keyword named like a positional-only parameter
 NameVal(n) == [t |-> "str", v |-> NameCode(n)]
